@@ -20,7 +20,9 @@ def configs(tier, seed):
   cfgs = []
   for proto in ('line', 'pickle', 'udp'):
     for s in range(n if proto != 'udp' else max(2, n // 4)):
-      cfgs.append(dict(name='%s/%d' % (proto, s), proto=proto, shard=s))
+      # every other shard runs with METRIC_CLIENT_IDLE_TIMEOUT set (idle clients are dropped after 30 s) and time passing
+      # between the segments / datagrams: less than the timeout on a connection, any amount between datagrams
+      cfgs.append(dict(name='%s/%d' % (proto, s), proto=proto, shard=s, idle=(30 if s % 2 else None)))
   return cfgs
 
 
@@ -60,10 +62,16 @@ def gen_value_text(r):
 def run_config(cfg, res):
   from vlib import boot, proto
   from vlib.refs import codec
-  ns = boot.boot('carbon-cache', {})
+  ns = boot.boot('carbon-cache', {'METRIC_CLIENT_IDLE_TIMEOUT': cfg['idle']} if cfg.get('idle') else {})
   import carbon.protocols as P
   rec = proto.install_recorder()
   r = gen.rng(cfg['seed'], 'C01', cfg['name'])
+  clk = None
+  if cfg.get('idle'):
+    from twisted.internet.task import Clock
+    clk = Clock()
+    if ns.settings.METRIC_CLIENT_IDLE_TIMEOUT != cfg['idle']:
+      res.inconc('METRIC_CLIENT_IDLE_TIMEOUT not applied by the config path')
   ncases = (60 if cfg['tier'] == 'quick' else 600)
 
   def report(kind, why, stream, exp, segs_desc, got):
@@ -75,7 +83,10 @@ def run_config(cfg, res):
 
     def one(segs, desc):
       res.count('segmentations_executed')
-      o = proto.tcp_session(cls, segs, rec)
+      # the idle timer restarts with every datapoint, not with every byte: the whole session stays under the timeout
+      o = proto.tcp_session(cls, segs, rec, clock=clk, gaps=[25.0 / max(1, len(segs))] if clk is not None else None)
+      if clk is not None:
+        res.count('sessions_with_idle_timeout_and_time_passing')
       if o['exc'] is not None:
         report('exception', 'exception %r escaped dataReceived' % o['exc'], stream, exp, desc, o['got'])
         return False
@@ -235,7 +246,11 @@ def run_config(cfg, res):
         if r.random() < 0.5:
           d = d[:-len(eol)]
         dgrams.append(d)
-      o = proto.udp_session(dgrams, rec)
+      o = proto.udp_session(dgrams, rec, clock=clk, gaps=[r.choice([0, 1, 29, 31, 100, 3600]) for _ in range(7)] if clk is not None else None)
+      if clk is not None:
+        res.count('sessions_with_idle_timeout_and_time_passing')
+      if o.get('port_closed'):
+        report('udp-port-closed', 'the UDP receiver closed its port', b'|'.join(dgrams), exp_line, 'datagrams with quiet periods', o['got'])
       res.count('datagrams_executed', len(dgrams))
       if o['exc'] is not None:
         report('exception', 'exception %r escaped datagramReceived' % o['exc'], b'|'.join(dgrams), exp_line, 'datagrams', o['got'])
